@@ -138,6 +138,54 @@ PROPS = {
                   'a release is attributed to the event after which the client returned within 700 ms (+25 ms settle)'],
     assumptions=['Go scheduler / sync.Cond semantics are not modelled (partial): the theorems are about the wait/broadcast discipline'],
  ),
+ 'C07': dict(
+    group='shim', only=['hist'], ops=['hist'],
+    modules=['Ysshra.Props.C07'],
+    theorem_files=['Props/C07.lean'],
+    anchors=['agent/shimagent/', 'sshutils/cert/validation.go'],
+    n=dict(quick=500, thorough=20000),
+    timeout=dict(quick=900, thorough=3400),
+    trivial=lambda c: c['args'][3].count(';') < 2,
+    rule='histories of 1..25 operations (list, signers, sign, add, add-hardware-certificate, remove, remove-all, lock/unlock with right / wrong / empty passphrases, and add / remove / remove-all done directly on the underlying keyring) against a real shimagent.Server over a harness-served x/crypto keyring, both upstream modes, 0..4 initial identities; keys Ed25519 / ECDSA P-256 / RSA-2048; certificates signed by a harness CA with validity windows past / current / future / forever / zero / start-above-MaxInt64 / end-near-2^64 / lapsing during the history (the harness sleeps across it), KeyIDs valid YSSHCA of several types, unsupported version, inconsistent flags, missing member, no applicable type, free text, empty; faults per operation: failure reply / malformed reply per request kind, oversized frame, connection closed, failing listing during construction. The Unix time read before each operation and what keyid.Unmarshal / cert.Label say about each certificate travel on the line. Non-trivial = history with at least 3 operations; distinct = distinct argument fields.',
+    trusted_base=["x/crypto keyring and agent client are the underlying agent (modelled as Shim.UAgent; the model is compared with the real keyring's content after every operation)", 'keyid.Unmarshal and cert.Label verdicts per certificate are oracles on the line (C05 / C19 decide them)', 'SHA-256 as map key is taken collision-free; ssh marshalling injective', 'wall-clock seconds are read by the harness just before each call (windows keep a margin of >= 2 s from the clock except in the lapse cases, which sleep 5 s)'],
+    assumptions=['shim as repaired for F6; time is the integer second the harness observed'],
+ ),
+ 'C08': dict(
+    group='shim', only=['hist'], ops=['hist'],
+    modules=['Ysshra.Props.C08'],
+    theorem_files=['Props/C08.lean'],
+    anchors=['agent/shimagent/', 'sshutils/cert/validation.go'],
+    n=dict(quick=500, thorough=20000),
+    timeout=dict(quick=900, thorough=3400),
+    trivial=lambda c: c['args'][3].count(';') < 2,
+    rule='histories of 1..25 operations (list, signers, sign, add, add-hardware-certificate, remove, remove-all, lock/unlock with right / wrong / empty passphrases, and add / remove / remove-all done directly on the underlying keyring) against a real shimagent.Server over a harness-served x/crypto keyring, both upstream modes, 0..4 initial identities; keys Ed25519 / ECDSA P-256 / RSA-2048; certificates signed by a harness CA with validity windows past / current / future / forever / zero / start-above-MaxInt64 / end-near-2^64 / lapsing during the history (the harness sleeps across it), KeyIDs valid YSSHCA of several types, unsupported version, inconsistent flags, missing member, no applicable type, free text, empty; faults per operation: failure reply / malformed reply per request kind, oversized frame, connection closed, failing listing during construction. The Unix time read before each operation and what keyid.Unmarshal / cert.Label say about each certificate travel on the line. Non-trivial = history with at least 3 operations; distinct = distinct argument fields.',
+    trusted_base=["x/crypto keyring and agent client are the underlying agent (modelled as Shim.UAgent; the model is compared with the real keyring's content after every operation)", 'keyid.Unmarshal and cert.Label verdicts per certificate are oracles on the line (C05 / C19 decide them)', 'SHA-256 as map key is taken collision-free; ssh marshalling injective', 'wall-clock seconds are read by the harness just before each call (windows keep a margin of >= 2 s from the clock except in the lapse cases, which sleep 5 s)'],
+    assumptions=['Forward / Extension while locked are pass-through and not restricted by the statement'],
+ ),
+ 'C09': dict(
+    group='shim', only=['hist'], ops=['hist'],
+    modules=['Ysshra.Props.C09'],
+    theorem_files=['Props/C09.lean'],
+    anchors=['agent/shimagent/', 'sshutils/cert/validation.go'],
+    n=dict(quick=500, thorough=20000),
+    timeout=dict(quick=900, thorough=3400),
+    trivial=lambda c: c['args'][3].count(';') < 2,
+    rule='histories of 1..25 operations (list, signers, sign, add, add-hardware-certificate, remove, remove-all, lock/unlock with right / wrong / empty passphrases, and add / remove / remove-all done directly on the underlying keyring) against a real shimagent.Server over a harness-served x/crypto keyring, both upstream modes, 0..4 initial identities; keys Ed25519 / ECDSA P-256 / RSA-2048; certificates signed by a harness CA with validity windows past / current / future / forever / zero / start-above-MaxInt64 / end-near-2^64 / lapsing during the history (the harness sleeps across it), KeyIDs valid YSSHCA of several types, unsupported version, inconsistent flags, missing member, no applicable type, free text, empty; faults per operation: failure reply / malformed reply per request kind, oversized frame, connection closed, failing listing during construction. The Unix time read before each operation and what keyid.Unmarshal / cert.Label say about each certificate travel on the line. Non-trivial = history with at least 3 operations; distinct = distinct argument fields.',
+    trusted_base=["x/crypto keyring and agent client are the underlying agent (modelled as Shim.UAgent; the model is compared with the real keyring's content after every operation)", 'keyid.Unmarshal and cert.Label verdicts per certificate are oracles on the line (C05 / C19 decide them)', 'SHA-256 as map key is taken collision-free; ssh marshalling injective', 'wall-clock seconds are read by the harness just before each call (windows keep a margin of >= 2 s from the clock except in the lapse cases, which sleep 5 s)'],
+    assumptions=['"decodes as a YSSHCA KeyID" is the keyid.Unmarshal verdict (C05)'],
+ ),
+ 'C10': dict(
+    group='shim', only=['hist', 'weird'], ops=['hist'],
+    modules=['Ysshra.Props.C10'],
+    theorem_files=['Props/C10.lean'],
+    anchors=['agent/shimagent/', 'sshutils/cert/validation.go'],
+    n=dict(quick=500, thorough=20000),
+    timeout=dict(quick=900, thorough=3400),
+    trivial=lambda c: c['args'][3].count(';') < 2,
+    rule='histories of 1..25 operations (list, signers, sign, add, add-hardware-certificate, remove, remove-all, lock/unlock with right / wrong / empty passphrases, and add / remove / remove-all done directly on the underlying keyring) against a real shimagent.Server over a harness-served x/crypto keyring, both upstream modes, 0..4 initial identities; keys Ed25519 / ECDSA P-256 / RSA-2048; certificates signed by a harness CA with validity windows past / current / future / forever / zero / start-above-MaxInt64 / end-near-2^64 / lapsing during the history (the harness sleeps across it), KeyIDs valid YSSHCA of several types, unsupported version, inconsistent flags, missing member, no applicable type, free text, empty; faults per operation: failure reply / malformed reply per request kind, oversized frame, connection closed, failing listing during construction. The Unix time read before each operation and what keyid.Unmarshal / cert.Label say about each certificate travel on the line. Non-trivial = history with at least 3 operations; distinct = distinct argument fields.',
+    trusted_base=["x/crypto keyring and agent client are the underlying agent (modelled as Shim.UAgent; the model is compared with the real keyring's content after every operation)", 'keyid.Unmarshal and cert.Label verdicts per certificate are oracles on the line (C05 / C19 decide them)', 'SHA-256 as map key is taken collision-free; ssh marshalling injective', 'wall-clock seconds are read by the harness just before each call (windows keep a margin of >= 2 s from the clock except in the lapse cases, which sleep 5 s)'],
+    assumptions=['known finding F10 (dependency panic on an unexpected reply type) is excluded by the fault styles of the theorems'],
+ ),
 }
 
 NOT_APPLICABLE = {}
@@ -206,4 +254,28 @@ MANIFEST_TEXT = {
     design_ref='DESIGN.md §7 C20',
     note=_NOTE + 'sync.Cond and the Go scheduler are trusted (partial).',
     technique='Lean 4 proof (invariant over event histories) over regenerated table facts + observed-schedule correspondence'),
+ 'C07': dict(
+    text='Lean theorems about the filter of an arbitrary shim state (hence after every history): after a successful underlying listing every in-memory certificate is inside its (MaxInt64-clamped) validity window and, for a non-empty listing, its key is among the listed keys; an empty listing drops nothing; a failing listing touches nothing; unlimited validity never expires. '
+         'The whole state machine (swap-remove closure included) is compared with the real Server on generated histories with real certificates and the real clock.',
+    design_ref='DESIGN.md §7 C07, Appendix C',
+    note=_NOTE + 'x/crypto keyring/agent client and the wall clock are trusted.',
+    technique='Lean 4 proof (fold invariants over the filter passes) + history-level correspondence'),
+ 'C08': dict(
+    text='Lean theorems: while locked, listing returns [] and sign / signers / add / remove / remove-all / add-hardware-certificate / lock fail, none changing shim or underlying state, at any time under any faults; wrong passphrase fails and changes nothing; right passphrase restores the pre-lock tables; unlock of an unlocked agent is an error; a refused lock/unlock leaves the flag; '
+         'history form by induction: any sequence of client operations between lock p and unlock p leaves the state as it was. History-level correspondence incl. refusing underlying agent.',
+    design_ref='DESIGN.md §7 C08',
+    note=_NOTE + 'x/crypto keyring lock semantics are modelled in UAgent and compared after every operation.',
+    technique='Lean 4 proof (case analysis + induction over locked histories) + history-level correspondence'),
+ 'C09': dict(
+    text='Lean theorems: invariant (by induction over every operation, time and fault set, from construction in either mode): with the mode off the cache is empty, with it on the cache holds only YSSHCA certificates; hence in no-upstream mode no underlying YSSHCA certificate appears in key or signer listings and signing with one is key-not-found unless it is an in-memory certificate, '
+         'plain keys and other certificates are all listed, hidden certificates can be removed, and with the mode off every underlying identity is listed. Same history run in both modes by the harness.',
+    design_ref='DESIGN.md §7 C09',
+    note=_NOTE + 'keyid.Unmarshal verdicts are oracles (C05).',
+    technique='Lean 4 proof (reachability invariant) + history-level correspondence'),
+ 'C10': dict(
+    text='Lean theorems: add-hardware-certificate succeeds iff the certified plain key is in a successful underlying listing (again = no-op, plain key refused); signing with a stored certificate uses that key; remove / remove-all make it disappear even if the underlying agent fails; add / remove pass through with identical effect and result; '
+         'under every fault set a still-valid, non-orphaned in-memory certificate survives filter; failing construction is an error; raw forward frames are relayed byte-for-byte. History-level correspondence with fault injection at the underlying agent.',
+    design_ref='DESIGN.md §7 C10',
+    note=_NOTE + 'x/crypto agent client; known finding F10 for its panic on unexpected reply types.',
+    technique='Lean 4 proof (decision logic, frame lemmas over the filter passes) + fault-injecting correspondence'),
 }
